@@ -241,7 +241,35 @@ def run(ctx: Ctx):
         if (f"{T.conn}.state", "==", CONNECTED, True) not in facts:
             ctx.fail(cons, T.g.loc(n), "a capabilities-exchange time-out close is not restricted to PEER_CONNECTED")
             continue
-        cfgt = T.timeout_fact(facts, "last_read_since")
+        # which elapsed-time property is compared, and is its clock ever restarted?
+        el = [f_[0].split(".", 1)[1] for f_ in facts if f_[1] == ">" and f_[3]
+              and f_[0].startswith(f"{T.conn}.") and T.cfg_of_local(str(f_[2])) is not None]
+        elapsed = el[0] if el else "last_read_since"
+        cfgt = T.timeout_fact(facts, elapsed)
+        pcx = model.cls("node.peer", "PeerConnection")
+        pf = pcx.methods.get(elapsed)
+        clock = None
+        if pf is not None:
+            for r_ in ast.walk(pf.node):
+                if isinstance(r_, ast.Return) and isinstance(r_.value, ast.BinOp) and isinstance(r_.value.op, ast.Sub) \
+                        and isinstance(r_.value.right, ast.Attribute) and A.dotted(r_.value.right.value) == "self":
+                    clock = r_.value.right.attr
+        resets = []
+        if clock:
+            for fn_ in pcx.all_funcs:
+                if fn_.name == "__init__":
+                    continue
+                for x in A.walk_no_nested(fn_.node):
+                    if isinstance(x, (ast.Assign, ast.AugAssign)) and any(
+                            isinstance(t, ast.Attribute) and t.attr == clock and A.dotted(t.value) == "self"
+                            for t in A.store_targets(x)):
+                        resets.append(fn_.qualname)
+        ctx.inst(cons + "#clock", sample={"elapsed": elapsed, "clock": clock, "restarted_by": resets})
+        if clock is None or resets:
+            ctx.fail(cons + "#clock", T.g.loc(n), f"the handshake time-out is measured with "
+                     f"`{T.conn}.{elapsed}`, whose clock `{clock}` is restarted by {sorted(set(resets))} "
+                     f"(i.e. by any received bytes): a peer that keeps sending anything but its "
+                     f"CER/CEA - an ignored DWR, a single byte - is never timed out")
         direction = "sender" if (f"{T.conn}.is_sender", "truthy", None, True) in facts else \
             "receiver" if (f"{T.conn}.is_receiver", "truthy", None, True) in facts else None
         want = {"sender": "cea_timeout", "receiver": "cer_timeout"}.get(direction)
